@@ -582,6 +582,15 @@ def norm(e):
         return ("bin", e[1], a_, b_)
     if k == "index":
         b, i = norm(e[1]), norm(e[2])
+        # byte i of an integer's little/big-endian image is a shift:  x.to_le_bytes()[i] == (x >> 8*i) as u8
+        if b[0] == "call" and i[0] == "const" and isinstance(i[2], int) and not isinstance(i[2], bool) and len(b[2]) == 1:
+            m_ = re.search(r"<impl (u8|u16|u32|u64|u128|usize)>::to_(le|be)_bytes$", b[1])
+            if m_:
+                w_ = {"u8": 1, "u16": 2, "u32": 4, "u64": 8, "u128": 16, "usize": 8}[m_.group(1)]
+                if 0 <= i[2] < w_:
+                    sh_ = 8 * (i[2] if m_.group(2) == "le" else w_ - 1 - i[2])
+                    x_ = b[2][0]
+                    return ("cast", norm(("bin", "Shr", x_, ("const", "i32", sh_))) if sh_ else x_, m_.group(1), "u8")
         # constant index into an array literal / tuple-like aggregate: the element itself
         if b[0] == "agg" and i[0] == "const" and isinstance(i[2], int) and not isinstance(i[2], bool):
             for f, a in b[3]:
